@@ -437,11 +437,23 @@ def m_string_add(m, c, a):
     s = a[0]; s.chars.extend(as_rstr(a[1]).chars); return s
 
 
+def _char_test(m, pat):
+    """a str pattern that is a function / closure over char -> python predicate; else None"""
+    q = pat
+    while isinstance(q, Ptr) and isinstance(q.cell.v, (FnItem, Closure)): q = q.cell.v
+    if isinstance(q, (FnItem, Closure)):
+        return lambda ch: bool(m.branch(call_closure(m, q, [ch])))
+    return None
+
+
 @model('str::starts_with')
 def m_starts_with(m, c, a):
-    s, p = as_rstr(a[0]), as_rstr(a[1])
-    if len(p.chars) > len(s.chars): return False
-    return str_eq(m, RStr(s.chars[:len(p.chars)]), p)
+    s = as_rstr(a[0])
+    t = _char_test(m, a[1])
+    if t is not None: return bool(s.chars) and t(s.chars[0])
+    p = _pattern(m, a[1])
+    if len(p) > len(s.chars): return False
+    return str_eq(m, RStr(s.chars[:len(p)]), RStr(p))
 
 
 @model('str::eq', 'String::eq')
@@ -945,6 +957,10 @@ def _pattern(m, p):
 
 @model('str::ends_with')
 def m_ends_with(m, c, a):
+    t = _char_test(m, a[1])
+    if t is not None:
+        cs = as_rstr(a[0]).chars
+        return bool(cs) and t(cs[-1])
     s, p = as_rstr(a[0]).chars, _pattern(m, a[1])
     if len(p) > len(s): return False
     return str_eq(m, RStr(s[len(s) - len(p):]), RStr(p))
@@ -1533,3 +1549,20 @@ def m_bytes(m, c, a):
     s = as_rstr(a[0]).chars
     if any(not isinstance(ch, str) or ord(ch) > 127 for ch in s): raise Unsupported('bytes on non-ASCII / symbolic text')
     return IterV('own', [Cell(ord(ch)) for ch in s])
+
+
+@model('str::trim_matches', 'str::trim_start_matches', 'str::trim_end_matches')
+def m_trim_matches(m, callee, a):
+    cs = list(as_rstr(a[0]).chars)
+    t = _char_test(m, a[1])
+    if t is None:
+        p = _pattern(m, a[1])
+        if len(p) != 1: raise Unsupported('trim_matches with a multi-character pattern')
+        t = lambda ch: (ch == p[0]) if isinstance(ch, str) and isinstance(p[0], str) else bool(m.branch(m.binop('Eq', ch, p[0])))
+    key = canon_last(callee)
+    i, j = 0, len(cs)
+    if key in ('trim_matches', 'trim_start_matches'):
+        while i < j and t(cs[i]): i += 1
+    if key in ('trim_matches', 'trim_end_matches'):
+        while j > i and t(cs[j - 1]): j -= 1
+    return StrRef(RStr(cs[i:j]))
